@@ -1910,6 +1910,9 @@ class Tensor:
 
         if not _track.TRACK_GRAPH:
             self.data.shape = newshape
+            # a stored gradient has the old shape; like any in-place
+            # update, reshaping invalidates it
+            self.null_grad()
             return
 
         if newshape == self.shape:
@@ -1920,6 +1923,10 @@ class Tensor:
         # raise here if the shape is not compatible
         self.data.shape = newshape
         self.data.shape = old_shape
+
+        # a placeholder cannot be created for a tensor that holds a gradient;
+        # like any in-place update, reshaping invalidates the stored gradient
+        self.null_grad()
 
         # create placeholders for self and all of its view-children
         graph = _dup.DuplicatingGraph(self)
